@@ -49,9 +49,16 @@ fn main() {
     let mut out = io::BufWriter::new(stdout.lock());
     let interactive = args.iter().any(|a| a == "--interactive");
 
-    for line in stdin.lock().lines() {
-        let line = line.unwrap();
-        let line = line.trim();
+    // one line buffer for the whole run, allocated before any tracking starts: a per-line `String` would be live while
+    // `heap live` is measured, and its capacity depends on where the line falls relative to the reader's buffer boundary
+    let mut buf = String::with_capacity(1 << 22);
+    let mut input = stdin.lock();
+    loop {
+        buf.clear();
+        if input.read_line(&mut buf).unwrap() == 0 {
+            break;
+        }
+        let line = buf.trim();
         if line.is_empty() || line.starts_with('#') {
             continue;
         }
